@@ -180,7 +180,12 @@ def run_check(
 
             rdir = Path(tempfile.gettempdir()) / "mtsa-selftest-replay"
         rdir.mkdir(exist_ok=True)
+        shown: Dict[tuple, int] = {}
         for f in new:
+            grp = (f.rule, f.where)
+            shown[grp] = shown.get(grp, 0) + 1
+            if shown[grp] > 3:
+                continue
             h = hashlib.sha1(f.key.encode()).hexdigest()[:10]
             rp = rdir / f"{property_id}-{f.rule}-{h}.json"
             rp.write_text(
@@ -204,6 +209,9 @@ def run_check(
             loc = f"{f.where}" + (f":{f.line}" if f.line else "")
             print(f"  {f.rule} at {loc}: {f.message}\n      construct: {f.construct}")
             print(f"VIOLATION property={property_id} replay={rp}")
+        for grp, cnt in shown.items():
+            if cnt > 3:
+                print(f"  ... and {cnt - 3} more violation(s) of {grp[0]} in {grp[1]} (all listed in the evidence file)")
     _write_evidence(
         ctx, level, seed, t0, explanation, checker_cmd, n_viol=len(new), n_known=len(seen_known)
     )
